@@ -80,13 +80,17 @@ Definition bloc_iloc (s : sys) (bl : bloc) : option iloc :=
   | BBefore r => match b_target (get_bar s r) with TMulti i => Some (LBefore i) | _ => None end
   end.
 
-(** the slot an add/insert* call allocates *)
+(** the slot an add/insert* call allocates (none for a bar that is a member already: no effect) *)
 Definition insert_slot (s : sys) (o : op) : option N :=
   match o with
-  | OInsert bl _ =>
-      match bloc_iloc s bl with
-      | Some l => option_map snd (ms_insert (s_mp s) l)
-      | None => None
+  | OInsert bl b =>
+      match b_target (get_bar s b) with
+      | TMulti _ => None
+      | _ =>
+          match bloc_iloc s bl with
+          | Some l => option_map snd (ms_insert (s_mp s) l)
+          | None => None
+          end
       end
   | _ => None
   end.
